@@ -347,9 +347,9 @@ func (w *World) newHandler(tier int, kind string, store *fakemc.Store) (handlers
 			vnet.DialHook = func(network, address string) (net.Conn, error) {
 				pc := fakemc.NewConn(store, "pool:"+address)
 				pc.Async = true
-				worldMu.Lock()
+				appMu.Lock() // not worldMu: ConnectLocked holds that one while the pool dials
 				w.Conns = append(w.Conns, pc)
-				worldMu.Unlock()
+				appMu.Unlock()
 				return pc, nil
 			}
 		}
